@@ -1,5 +1,6 @@
 import PasetoModel.Token
 import PasetoModel.Asym
+import PasetoModel.Extracted.Api
 /-! # C12 — nothing from an unauthenticated token is decoded, validated or reported
 Generic part over `SealedToken::unseal` (paseto-core/src/tokens.rs); the per-back-end part
 ("`V::unseal` returns `Ok` only if the MAC / signature verifies") is C02's acceptance
@@ -102,6 +103,12 @@ theorem auth_error_kinds_public (b : Backend) (pk payload f a : Bytes) (e : Err)
     e = .claims ∨ e = .invalidToken ∨ e = .crypto := by
   rcases unsealPublic_total (publicScheme b) (tokHdr b .publicP) pk payload f a with ⟨m, hm⟩ | h1 | h1 | h1 <;>
     rw [h] at * <;> simp_all
+
+/-- **Accessor clause.**  The public surface of the sealed-token types, re-scanned from the source on every run: the only
+    public inherent method that hands out the footer (or raw bytes) of a token that has not been unsealed is the one named
+    `unverified_footer`, and no field of `SealedToken` is public.  (The compile probes of C18 tie this to rustc.) -/
+theorem unverified_footer_only_by_name :
+    Extracted.Api.sealedTokenAccessors = ["unverified_footer"] ∧ Extracted.Api.sealedTokenPubFields = [] := by decide
 
 /-! non-vacuity -/
 example : tokenUnseal (M := Nat) (.ok [1]) (fun _ => some 3) (fun _ => .ok ()) = (.ok 3, [.decode [1], .validate]) := rfl
